@@ -106,6 +106,44 @@ theorem owen_length_ge (p : OPath ℝ) :
   · exact abs_le_of_sq_le_sq (by rw [h]; nlinarith [sq_nonneg (p.r * (p.path.len + 2 * Real.pi * p.k + p.phi))]) hnn
   · exact abs_le_of_sq_le_sq (by rw [h]; nlinarith [sq_nonneg p.dz]) hnn
 
+/-- [EX] **`length()` as the code at HEAD computes it** (`std::abs(phi_)`, fix of F147; `owen_length_sq` / `owen_length_ge` above are about the
+pre-fix signed form, which the code no longer uses): `(r·(L + 2πk + |φ|))² + Δz²`. -/
+theorem owen_length_abs_sq (p : OPath ℝ) :
+    p.lenAbs ^ 2 = (p.r * (p.path.len + 2 * Real.pi * p.k + |p.phi|)) ^ 2 + p.dz ^ 2 := by
+  unfold OPath.lenAbs
+  simp only [sqrt_eq, twopi_eq, abs_eq]
+  rw [Real.sq_sqrt (add_nonneg (mul_self_nonneg _) (mul_self_nonneg _))]
+  ring
+
+/-- [EX] the reported length (HEAD form) is at least the altitude difference and the horizontal length of the curve `interpolate` walks;
+for a negative initial turn it is at least the pre-fix value (which under-reported the curve by `2 r |φ|` horizontally). -/
+theorem owen_length_abs_ge (p : OPath ℝ) :
+    |p.dz| ≤ p.lenAbs ∧ |p.r * (p.path.len + 2 * Real.pi * p.k + |p.phi|)| ≤ p.lenAbs ∧
+    (p.phi < 0 → 0 ≤ p.r → 0 ≤ p.path.len + 2 * Real.pi * p.k → p.len ≤ p.lenAbs) := by
+  have h := owen_length_abs_sq p
+  have hnn : 0 ≤ p.lenAbs := by unfold OPath.lenAbs; simp only [sqrt_eq]; exact Real.sqrt_nonneg _
+  refine ⟨?_, ?_, ?_⟩
+  · exact abs_le_of_sq_le_sq (by rw [h]; nlinarith [sq_nonneg (p.r * (p.path.len + 2 * Real.pi * p.k + |p.phi|))]) hnn
+  · exact abs_le_of_sq_le_sq (by rw [h]; nlinarith [sq_nonneg p.dz]) hnn
+  · intro hphi hr hL
+    have hs := owen_length_sq p
+    have hnn' : 0 ≤ p.len := by unfold OPath.len; simp only [sqrt_eq]; exact Real.sqrt_nonneg _
+    apply abs_le_of_sq_le_sq' _ hnn |>.2
+    rw [h, hs]
+    have habs : |p.phi| = -p.phi := abs_of_neg hphi
+    rw [habs]
+    have : (p.r * (p.path.len + 2 * Real.pi * p.k + p.phi)) ^ 2 ≤ (p.r * (p.path.len + 2 * Real.pi * p.k + -p.phi)) ^ 2 := by
+      have e : (p.r * (p.path.len + 2 * Real.pi * p.k + -p.phi)) ^ 2 - (p.r * (p.path.len + 2 * Real.pi * p.k + p.phi)) ^ 2
+          = 4 * p.r ^ 2 * (p.path.len + 2 * Real.pi * p.k) * (-p.phi) := by ring
+      have : 0 ≤ 4 * p.r ^ 2 * (p.path.len + 2 * Real.pi * p.k) * (-p.phi) := by
+        have : 0 ≤ -p.phi := by linarith
+        positivity
+      linarith
+    linarith
+
+example : ((⟨⟨.LSL, 0, 3, 0, false⟩, 1, 3, -1, 0⟩ : OPath ℝ).lenAbs) ^ 2 = 25 := by
+  rw [owen_length_abs_sq]; simp [Path.len]; norm_num
+
 -- non-vacuity
 example : turn (⟨0, 0, 0⟩ : Pose ℝ) 2 (Real.pi / 2) = ⟨2, 2, Real.pi / 2⟩ := by
   rw [owen_turn_is_arc, if_pos (by positivity), stepFwd_L]
